@@ -5,13 +5,13 @@ go 1.22.0
 toolchain go1.23.5
 
 require (
+	github.com/gorilla/websocket v1.5.3
 	go.nanomsg.org/mangos/v3 v3.0.0
 	golang.org/x/tools v0.29.0
 )
 
 require (
 	github.com/gdamore/optopia v0.2.0 // indirect
-	github.com/gorilla/websocket v1.5.3 // indirect
 	golang.org/x/mod v0.22.0 // indirect
 	golang.org/x/sync v0.10.0 // indirect
 )
